@@ -173,6 +173,11 @@ def structural_eq(I, run, a, b, node, fork=True) -> Optional[bool]:
             return True
         if a.name in EXT_CONST and b.name in EXT_CONST:
             return EXT_CONST[a.name] == EXT_CONST[b.name]
+        if a.name.startswith("errno.") and b.name.startswith("errno."):
+            import errno as _errno  # stdlib constants of the build platform
+            va, vb = getattr(_errno, a.name[6:], None), getattr(_errno, b.name[6:], None)
+            if va is not None and vb is not None:
+                return va == vb
         return _memo_bool(I, run, ("cmp", "==") + tuple(sorted([a.key(), b.key()], key=repr)), node,
                           f"{a!r} == {b!r}", fork)
     if isinstance(a, Tup) and isinstance(b, Tup):
